@@ -591,3 +591,33 @@ def mc_stage(run, name, spec, cfg, env=None, timeout=1200, workers=None, extra_a
                       detail="the specification itself violates its design-level property", trace=(v[2] if v else out[-4000:])))
     run.stage(name, kind="spec-model-checking", spec=spec, states=dist, ok=ok)
     return out
+
+
+def apalache_stage(run, name, spec, invariants, timeout=900):
+    """Unbounded design-level obligations discharged symbolically by Apalache (state invariants at length 0 over an
+    arbitrary parameter valuation).  Any outcome other than NoError for an obligation fails the run."""
+    wd = run.sub(name)
+    ok_all = True
+    done = []
+    for inv in invariants:
+        cmd = ["timeout", str(timeout), "apalache-mc", "check", "--length=0", "--inv=" + inv,
+               "--out-dir=" + os.path.join(wd, "apalache-out"), spec]
+        p = subprocess.run(cmd, cwd=os.path.join(SPEC, "apalache"), stdout=subprocess.PIPE, stderr=subprocess.STDOUT, text=True)
+        out = p.stdout
+        if p.returncode == 124:
+            raise ToolError("apalache timed out on %s / %s" % (spec, inv))
+        if "The outcome is: NoError" in out:
+            done.append(inv)
+        elif "The outcome is: Error" in out:
+            ok_all = False
+            run.fail(dict(stage=name, op=spec, check=inv, record={"spec": spec, "invariant": inv},
+                          detail="Apalache found a counterexample to a design-level obligation", trace=out[-3000:]))
+        else:
+            raise ToolError("apalache failed on %s / %s:\n%s" % (spec, inv, out[-3000:]))
+    shutil.rmtree(os.path.join(wd, "apalache-out"), ignore_errors=True)
+    run.cov.setdefault("obligations", 0)
+    run.cov.setdefault("discharged", 0)
+    run.cov["obligations"] += len(invariants)
+    run.cov["discharged"] += len(done)
+    run.stage(name, kind="symbolic-obligations", tool="apalache-mc 0.58 (Z3)", spec=spec, obligations=invariants, discharged=done)
+    return ok_all
